@@ -78,7 +78,7 @@ theorem holds_eq_st (p : Proc) (b : Book) (h : Rel p b) :
 
 /-- with the ledger in `Sim` and the invariant of the small-step model, every clause of `checkObs` passes -/
 theorem checkObs_ok (d : DState) (l : Ledger) (hs : Sim d l) (inv : Inv d.st) :
-    checkObs d.st.capI d.st.capB l ⟨out, d.st.curI, d.st.curB, d.qI.length, d.qB.length⟩ = .ok () := by
+    checkObs d.st.capI d.st.capB l ⟨out, d.st.curI, d.st.curB, d.qI.length, d.qB.length, []⟩ = .ok () := by
   have hI : l.count .holdI = owners d.st .I := by
     unfold Ledger.count owners
     exact (countP_pointwise _ _ d.st.procs l hs.len.symm
@@ -1168,7 +1168,7 @@ theorem checkSteps_model (s0 : State) (h0 : Inv s0) : ∀ (ops : List Op) (d : D
     have hreach1 := dStep_reach d op hreach
     have inv1 := reach_inv h0 hreach1
     obtain ⟨c1, c2⟩ := reach_caps hreach1
-    simp only [dRun, checkSteps]
+    simp only [dRun, checkSteps, markFired, List.foldl_nil]
     rcases dStep_ok d l op hs inv with ⟨_, hbad⟩ | ⟨l1, l2, h1, h2, hs2⟩
     · right; simp only [hbad]
     · simp only [h1, h2]
@@ -1194,7 +1194,7 @@ theorem checkSteps_model_legal (s0 : State) (h0 : Inv s0) : ∀ (ops : List Op) 
     have hreach1 := dStep_reach d op hreach
     have inv1 := reach_inv h0 hreach1
     obtain ⟨c1, c2⟩ := reach_caps hreach1
-    simp only [dRun, checkSteps]
+    simp only [dRun, checkSteps, markFired, List.foldl_nil]
     rcases dStep_ok d l op hs inv with ⟨hnl, _⟩ | ⟨l1, l2, h1, h2, hs2⟩
     · exact absurd hleg.1 hnl
     · simp only [h1, h2]
